@@ -22,7 +22,7 @@ def units(tier, seed):
     out += _g.pdag_units("pdag", 4, 32)
     out += _g.dag_units("wdag", 4, 8)
     if tier == "thorough":
-        out += [{"stage": "pdag", "p": 5, "codes": c, "light": True} for c in split_list(_g.sparse_codes(5, 5, (1, 2, 3)), 64)]
+        out += [dict(u, light=True) for u in _g.pdag_units("pdag", 5, 512)]      # every 5-node PDAG (765,664); separates with singleton A, B
     # wide graphs (p = 10, node indices >= 8): every PDAG with <= 2 edges and targeted colliders
     out += [{"stage": "pdag", "p": _g.WIDE_P, "codes": c, "light": True} for c in split_list(_g.wide_sparse_codes("pdag"), 32)]
     out.append({"stage": "wide-targeted"})
@@ -237,6 +237,6 @@ def describe(tier, seed):
                 "of the nodes to subsets of {S,A,B} (p<=3, overlapping => ValueError), every disjoint (S,A,B) with singleton A,B at p=4 (quick) / "
                 "every disjoint triple (thorough); non-trivial: >= 2 edges",
         "exhaustive": True,
-        "bounds": {"p_exhaustive": 4, "separates_full_p": 4 if tier == "thorough" else 3},
+        "bounds": {"p_exhaustive": 5 if tier == "thorough" else 4, "separates_full_p": 4 if tier == "thorough" else 3},
         "assumptions": ["graphs with a cyclic directed part are outside the quantifier and never generated"],
     }
